@@ -22,6 +22,9 @@ Ops (JSON lists):
   ["EmptyTrash"]                       butler._datastore.emptyTrash()
   ["RegRemove", [d...]]                registry.removeDatasets(refs)        (must refuse when a datastore holds one)
   ["Trash1", d]                        butler._datastore.trash(ref)         (a SINGLE ref: another code path, artifact checked first)
+  ["Xfer", d, run, key]                Butler.transfer_from(source_butler, [ref], transfer="copy") from a SECOND repository in which the
+                                       dataset (same id, run, type, data ID) is put first; registers the run in the target when missing;
+                                       datastore records are written in REPLACE mode, the location row by bridge.ensure
   ["Ingest", d1, d2, run, key]         Butler.ingest(FileDataset(path, refs=[ref1, ref2]), transfer="copy"): ONE file for two
                                        datasets of the same run and dataset type; ref2 has the sibling key sib(key)
 """
@@ -76,6 +79,7 @@ class Driver:
         self.dbfile = f"{self.root}/gen3.sqlite3"
         self._dc: dict = {}
         self.carried: dict[int, object] = {}      # dataset id -> ref WITH datastore records, taken right after its put
+        self.src = None                            # (root, butler) of the source repository of Xfer, created on first use
 
     # -- refs -----------------------------------------------------------------------------
     def ref(self, d, run=None, key=None):
@@ -160,6 +164,24 @@ class Driver:
         if k == "Trash1":
             b._datastore.trash(self.live_ref(op[1]))
             return "Ok"
+        if k == "Xfer":
+            _, d, run, key = op
+            sref = self.source_dataset(d, run, key)
+            if self.sql.getDataset(self.uuid_of[d]) is None:
+                self.def_of[d] = (run, key)
+            b.transfer_from(self.src[1], [sref], transfer="copy")
+            try:
+                cr = b.get_dataset(self.uuid_of[d], datastore_records=True)
+                if cr is not None and cr._datastore_records:
+                    self.carried[d] = cr
+            except Exception:  # noqa: BLE001
+                pass
+            try:
+                rel = os.path.relpath(b.getURI(self.ref(d, run, key)).ospath, self.root)
+                self.path_of[rel] = (run, key)
+            except Exception:  # noqa: BLE001
+                pass
+            return "Ok"
         if k == "Ingest":
             import json
             import tempfile
@@ -191,6 +213,31 @@ class Driver:
                 pass
             return "Ok"
         raise ValueError(f"unknown op {op}")
+
+    def source_dataset(self, d, run, key):
+        """Make the source repository hold dataset d with the definition (run, key) -- whatever it held before -- and return its ref."""
+        from lsst.daf.butler import CollectionType
+        if self.src is None:
+            root, sb = fixture.make_repo(fixture.new_root("c10src"))
+            fixture.add_instrument(sb, name="I", detectors=range(NDATA), filters=())
+            for dt in self.dtypes.values():
+                sb.registry.registerDatasetType(dt)
+            self.src = (root, sb)
+        sb = self.src[1]
+        u = self.uuid_of[d]
+        old = sb.get_dataset(u)
+        if old is not None:
+            sb.pruneDatasets([old], purge=True, unstore=True, disassociate=True)
+        sb.registry.registerCollection(cname(run), CollectionType.RUN)
+        ref = self.ref(d, run, key)
+        try:
+            other = sb.find_dataset(ref.datasetType, ref.dataId, collections=[cname(run)])
+        except Exception:  # noqa: BLE001
+            other = None
+        if other is not None:
+            sb.pruneDatasets([other], purge=True, unstore=True, disassociate=True)
+        sb.put({"d": d, "ds": [d] + self.sharers(run, key), "key": key, "run": run}, ref)
+        return sb.get_dataset(u)
 
     def sharers(self, run, key):
         """Ids whose datastore records name the artifact written for (run, key): a put / ingest that rewrites the file keeps
@@ -412,6 +459,8 @@ class Driver:
         except Exception:  # noqa: BLE001
             pass
         fixture.cleanup(self.root)
+        if self.src is not None:
+            fixture.cleanup(self.src[0])
 
 
 def _kind(name):
